@@ -20,6 +20,7 @@ use bytes::Bytes;
 use serde_json::{json, Value};
 use std::future::Future;
 use std::net::{IpAddr, SocketAddr};
+use std::panic::{catch_unwind, AssertUnwindSafe};
 use std::pin::Pin;
 use std::task::{Context, Poll, Waker};
 use turmoil_net::shim::tokio::net::{TcpListener, TcpStream, UdpSocket};
@@ -131,7 +132,10 @@ fn run_net(case: &Value) -> Value {
     let guard = net.enter();
     let mut w = World { hosts, addrs, handles: Vec::new() };
     let mut steps = Vec::new();
+    let mut panic_msg: Option<String> = None;
     for cmd in case["script"].as_array().unwrap() {
+        // a panic inside the implementation ends the script; what was observed so far is kept
+        let r = catch_unwind(AssertUnwindSafe(|| {
         let name = cmd[0].as_str().unwrap();
         let o = match name {
             "bind_udp" | "listen" => {
@@ -406,7 +410,15 @@ fn run_net(case: &Value) -> Value {
             }
             other => panic!("unknown command {other}"),
         };
-        steps.push(o);
+        o
+        }));
+        match r {
+            Ok(o) => steps.push(o),
+            Err(e) => {
+                panic_msg = Some(vharness::panic_message(e));
+                break;
+            }
+        }
     }
     let counts: Vec<Value> = w
         .hosts
@@ -416,12 +428,20 @@ fn run_net(case: &Value) -> Value {
             json!([c.sockets, c.binding_keys, c.binding_fds, c.connections])
         })
         .collect();
-    for hd in w.handles.iter_mut().rev() {
-        guard.set_current(w.hosts[hd.host]);
-        hd.obj = None;
+    let torn = catch_unwind(AssertUnwindSafe(|| {
+        for hd in w.handles.iter_mut().rev() {
+            guard.set_current(w.hosts[hd.host]);
+            hd.obj = None;
+        }
+    }));
+    if torn.is_err() {
+        std::mem::forget(w);
     }
     drop(guard);
-    json!({"steps": steps, "counts": counts})
+    match panic_msg {
+        Some(m) => json!({"steps": steps, "counts": counts, "panic": m}),
+        None => json!({"steps": steps, "counts": counts}),
+    }
 }
 
 /// Unit-level: PortAllocator on a small range; every step lists the ports in use.
